@@ -84,7 +84,7 @@ CHECKS = {
     "XSIM": dict(level="model_checking", clauses={"cross-names", "cross-rows", "cross-order", "accept", "export-error", "names", "rows", "order", "group"},
                  phases=dict(quick=[dict(profile="mixsim", num=3200)], thorough=[dict(profile="mixsim")])),
     # development aid (not registered): VERIF_DEV_PHASES='[{"profile": "joinz4"}]' ./check XDEV
-    "XDEV": dict(level="model_checking", clauses=GEN_CLAUSES_SPEC | CROSS | {"errclass", "accept", "export-error", "target", "meta", "getname", "equiv", "dtype-static", "dtype-export", "lca", "lca-internal", "chain", "impl-internal", "dialect-internal", "dialect-noselect", "dialect-nondet"},
+    "XDEV": dict(level="model_checking", clauses=GEN_CLAUSES_SPEC | CROSS | {"errclass", "accept", "export-error", "target", "meta", "getname", "equiv", "dtype-static", "dtype-export", "lca", "lca-internal", "chain", "impl-internal", "dialect-internal", "dialect-noselect", "dialect-nondet", "immut-fp", "immut-data", "immut-query", "immut-source"},
                  phases=dict(quick=json.loads(os.environ.get("VERIF_DEV_PHASES", "[]")), thorough=[])),
     "C01": dict(
         level="model_checking",
@@ -109,7 +109,7 @@ CHECKS = {
     "C08": dict(
         level="model_checking",
         clauses=SUBQ | {"rows", "order", "names", "export-error", "accept", "flat-correct"}, backends={"sqlite"},
-        phases=dict(quick=[dict(kind="flat", depth=5), dict(kind="flat", depth=3, paths=True), dict(kind="flat", depth=4, alias=True), dict(kind="flat", depth=4, paths=True, alias=True, srcs=[1]), dict(kind="argspace", verbs=["slices"], sizes=[5], ns=[1, 2, 4], ks=[0, 1, 2]), dict(kind="flatjoin", pre=2), dict(profile="gsub4"), dict(profile="subq4"), dict(profile="wins3"), dict(profile="agg3"), dict(profile="joins3"), dict(profile="union2")],
+        phases=dict(quick=[dict(kind="flat", depth=5), dict(kind="flat", depth=3, paths=True), dict(kind="flat", depth=4, alias=True), dict(kind="flat", depth=4, paths=True, alias=True, srcs=[1]), dict(kind="argspace", verbs=["slices"], sizes=[5], ns=[1, 2, 4], ks=[0, 1, 2]), dict(kind="flatjoin", pre=2), dict(profile="gsub4"), dict(profile="subq4"), dict(profile="wins3"), dict(profile="agg3"), dict(profile="joins3"), dict(profile="joinz4"), dict(profile="union2")],
                     thorough=[dict(profile="subq5"), dict(profile="gsub4"), dict(kind="argspace", verbs=["slices"], ns=[0, 1, 2, 3, 6], ks=[0, 1, 2, 4, 7], sizes=[4, 6]), dict(kind="flat", depth=6, srcs=[1, 6, 7], timeout=1800), dict(kind="flat", depth=4, paths=True), dict(kind="flatjoin", pre=3), dict(profile="wins4"), dict(profile="agg3"), dict(profile="win3"),
                               dict(profile="joins4"), dict(profile="union3")]),
     ),
@@ -146,7 +146,7 @@ CHECKS = {
     "C05": dict(
         level="model_checking",
         clauses=GEN_CLAUSES_SPEC,
-        phases=dict(quick=[dict(kind="argspace", verbs=["win"], wmax=3), dict(profile="win2"), dict(profile="win2", opts=dict(alt=True)), dict(profile="win2", opts=dict(pool=True)), dict(profile="wins3")],
+        phases=dict(quick=[dict(kind="argspace", verbs=["win"], wmax=3), dict(kind="argspace", verbs=["slices"], sizes=[5], ns=[1, 2], ks=[0, 1, 3]), dict(profile="win2"), dict(profile="win2", opts=dict(alt=True)), dict(profile="win2", opts=dict(pool=True)), dict(profile="wins3")],
                     thorough=[dict(kind="argspace", verbs=["win"], wmax=4), dict(profile="win2"), dict(profile="win2", opts=dict(pool=True)), dict(profile="win3"), dict(profile="wins4")]),
     ),
     "C09": dict(
@@ -157,7 +157,7 @@ CHECKS = {
     "C12": dict(
         level="model_checking",
         clauses={"dtype-static", "dtype-export", "dtype-roundtrip", "trace-dtype", "trace-export-dtype"},
-        phases=dict(quick=[dict(profile="ty2", opts=dict(roundtrip=True)), dict(profile="ty2", opts=dict(roundtrip=True, generic=True)), dict(profile="union3", opts=dict(roundtrip=True)),
+        phases=dict(quick=[dict(profile="ty2", opts=dict(roundtrip=True)), dict(profile="ty2", opts=dict(roundtrip=True, generic=True)), dict(profile="union3", opts=dict(roundtrip=True)), dict(profile="cast1", opts=dict(roundtrip=True)),
                            dict(kind="tracemeta", profiles=[("ty2", 400), ("agg3", 300), ("union2", 200)])],
                     thorough=[dict(profile="ty2", opts=dict(roundtrip=True)), dict(profile="ty2", opts=dict(roundtrip=True, generic=True)), dict(profile="union2", opts=dict(roundtrip=True)),
                               dict(kind="tracemeta", profiles=[("ty2", 3000), ("agg3", 2000), ("union3", 2000), ("join2", 2000)]),
@@ -208,7 +208,7 @@ CHECKS = {
     "C15": dict(
         level="model_checking",
         clauses={"equiv", "rows", "names", "accept", "export-error"},
-        phases=dict(quick=[dict(profile="equiv2", opts=dict(pool=True)), dict(profile="equiv_tall")],
+        phases=dict(quick=[dict(profile="equiv2", opts=dict(pool=True)), dict(profile="equiv_tall"), dict(kind="argspace", verbs=["joinrows"], jmax=2)],
                     thorough=[dict(profile="equiv2", opts=dict(pool=True)), dict(profile="equiv2"), dict(profile="equiv_tall")]),
     ),
     "C16": dict(
@@ -221,9 +221,9 @@ CHECKS = {
         level="model_checking",
         clauses={"immut-fp", "immut-data", "immut-query", "immut-source", "rows", "order", "names", "accept", "group", "chain"},
         phases=dict(quick=[dict(profile="imm3", opts=dict(immut=True, chain=True)), dict(profile="core2", opts=dict(immut=True)),
-                           dict(profile="subq4", opts=dict(immut=True)), dict(profile="join2", opts=dict(immut=True))],
+                           dict(profile="subq4", opts=dict(immut=True)), dict(profile="join2", opts=dict(immut=True)), dict(profile="union3", opts=dict(immut=True))],
                     thorough=[dict(profile="core2", opts=dict(immut=True)), dict(profile="imm4", opts=dict(immut=True)), dict(profile="agg3", opts=dict(immut=True)), dict(profile="subq5", opts=dict(immut=True)),
-                              dict(profile="wins3", opts=dict(immut=True)), dict(profile="join2", opts=dict(immut=True))]),
+                              dict(profile="wins3", opts=dict(immut=True)), dict(profile="join2", opts=dict(immut=True)), dict(profile="union3", opts=dict(immut=True))]),
     ),
     "C11": dict(
         level="model_checking",
